@@ -95,6 +95,7 @@ type run struct {
 	tracing   bool
 	traces    []traceRec
 	syncMaps  map[*value]map[string]value
+	jsonEncW  map[*value]value // json.Encoder -> the writer it was made for
 	onceDone  map[*value]bool
 	pools     map[*value][]value  // sync.Pool contents (worst case: last put is next got)
 	frozen    map[*value]string   // cells no operation may write to -> obligation label
@@ -666,6 +667,7 @@ func (e *engine) runPath(sol *Solver, entry *ssa.Function, args []value, prefix 
 		facts:      map[string]string{},
 		maxLen:     e.maxLen,
 		syncMaps:   map[*value]map[string]value{},
+		jsonEncW:   map[*value]value{},
 		onceDone:   map[*value]bool{},
 		pools:      map[*value][]value{},
 		frozen:     map[*value]string{},
